@@ -254,7 +254,7 @@ fn synth(len: usize, a: &[f64], seed: u64) -> Vec<f64> {
 }
 
 pub fn run(run: &Run) {
-    run.rule("acovf/acf: every integer series of length 3..=7 over {-1,0,1,2} × every lag -(n+1)..=(n+1) × offsets {0,1e3,1e6} against exact rational autocovariances; difference∘cumsum on all of them; AR orders 1..=3 (8 thorough) on every series of length 8..=10 over {-1,0,1} with Toeplitz cond ≤ 1e6 and on deterministic AR-driven series of length 50..5000 with offsets; forecasts for every horizon 1..=50 (1000 on the long series); non-trivial = non-constant series");
+    run.rule("acovf/acf: every integer series of length 3..=7 over {-1,0,1,2} × every lag -(n+1)..=(n+1) × offsets {0,1e3,1e6} against exact rational autocovariances; difference∘cumsum on all of them; AR orders 1..=3 on every series of length 8..=10 over {-1,0,1} with Toeplitz cond ≤ 1e6 and orders 1..=9 (12) on deterministic AR-driven series of length 50..5000 with offsets; forecasts for every horizon 1..=50 (1000 on the long series); non-trivial = non-constant series");
     let letters = [-1i128, 0, 1, 2];
     for n in 3..=7usize {
         par_words(4, n, |w| {
@@ -303,7 +303,7 @@ pub fn run(run: &Run) {
     // longer deterministic series
     let coefsets: Vec<Vec<f64>> = vec![vec![0.5], vec![-0.7], vec![0.6, -0.3], vec![0.2, 0.1, -0.4], vec![0.5, -0.25, 0.125, -0.0625], vec![0.3, 0.0, 0.0, 0.0, 0.2, -0.3], vec![0.9], vec![1.2, -0.5]];
     let lens: Vec<usize> = if run.thorough() { vec![50, 100, 200, 1000, 5000] } else { vec![50, 200, 1000] };
-    let pmax = run.tier.pick(6usize, 8usize);
+    let pmax = run.tier.pick(9usize, 12usize); // orders ≥ 8 reach the unrolled part of the dot kernel
     let mut jobs = Vec::new();
     for (ci, a) in coefsets.iter().enumerate() {
         for &len in &lens {
